@@ -2,6 +2,7 @@ package main
 
 import (
 	"fmt"
+	"go/token"
 	"go/types"
 	"math/big"
 	"strings"
@@ -204,6 +205,12 @@ func (u *Unit) evalSpecBin(env *SpecEnv, e *SExpr) Value {
 			return boolV(Gt(x.Term, y.Term))
 		case ">=":
 			return boolV(Ge(x.Term, y.Term))
+		}
+	}
+	if x.K == KNum && y.K == KNum && x.Term.Sort == y.Term.Sort && x.Term.Sort != SReal {
+		if tok, ok := specTok[e.Name]; ok {
+			v, _ := u.numBinary(tok, x, y, x.T)
+			return v
 		}
 	}
 	// real arithmetic (realfloat specs)
@@ -415,6 +422,66 @@ func (u *Unit) evalSpecCall(env *SpecEnv, e *SExpr) Value {
 		x := arg(2)
 		x.T = s
 		return u.convertNum(env.st(), x, d, true)
+	case "maxSigned", "minSigned", "maxUnsigned":
+		// bit-depth tables computed from the mathematical definitions (property C16):
+		// maxSigned(b) = 2^(b-1)-1, minSigned(b) = -2^(b-1), maxUnsigned(b) = 2^b-1 for 1 <= b <= 64; 0 for b = 0
+		b := arg(0)
+		rt := types.Typ[types.Int64]
+		if e.Name == "maxUnsigned" {
+			rt = types.Typ[types.Uint64]
+		}
+		val := func(d int) *big.Int {
+			if d == 0 {
+				return big.NewInt(0)
+			}
+			switch e.Name {
+			case "maxSigned":
+				return new(big.Int).Sub(new(big.Int).Lsh(big.NewInt(1), uint(d-1)), big.NewInt(1))
+			case "minSigned":
+				return new(big.Int).Neg(new(big.Int).Lsh(big.NewInt(1), uint(d-1)))
+			}
+			return new(big.Int).Sub(new(big.Int).Lsh(big.NewInt(1), uint(d)), big.NewInt(1))
+		}
+		if n, _, ok := bvLitVal(b.Term); ok && n.Int64() <= 64 {
+			return Value{K: KNum, T: rt, Term: BVLit(val(int(n.Int64())), 64)}
+		}
+		t := BVLit(val(64), 64)
+		for d := 63; d >= 0; d-- {
+			t = Ite(Eq(b.Term, BVLit64(int64(d), 8)), BVLit(val(d), 64), t)
+		}
+		return Value{K: KNum, T: rt, Term: t}
+	case "pow2T":
+		// pow2T(T, d): the value 2^d in integer type T (d a bit-depth difference)
+		t := u.elemOf(env, e.Args[0])
+		d := arg(1)
+		sort := u.numSort(t, true)
+		if strings.HasPrefix(sort, "U_") {
+			return Value{K: KNum, T: t, Term: u.ctx.App("pow2_"+sort[2:], sort, d.Term)}
+		}
+		w := u.widthOf(t)
+		if n, _, ok := bvLitVal(d.Term); ok {
+			return Value{K: KNum, T: t, Term: BVLit(new(big.Int).Lsh(big.NewInt(1), uint(n.Int64())), w)}
+		}
+		r := BVLit64(0, w)
+		for k := w - 1; k >= 0; k-- {
+			r = Ite(Eq(d.Term, BVLit64(int64(k), 8)), BVLit(new(big.Int).Lsh(big.NewInt(1), uint(k)), w), r)
+		}
+		return Value{K: KNum, T: t, Term: r}
+	case "fitsPow2":
+		// fitsPow2(T, d): 2^d is representable in T
+		t := u.elemOf(env, e.Args[0])
+		d := arg(1)
+		lim := u.widthOf(t)
+		if !isUnsignedT(t) {
+			lim--
+		}
+		return boolV(mk("bvult", SBool, d.Term, BVLit64(int64(lim), 8)))
+	case "bv8":
+		if n, ok := isIntLit(arg(0).Term); ok {
+			return Value{K: KNum, T: u.bdType(), Term: BVLit64(n, 8)}
+		}
+		u.errorf("spec: bv8 needs a literal")
+		return Value{K: KNum, T: u.bdType(), Term: BVLit64(0, 8)}
 	case "heapSame":
 		t := u.elemOf(env, e.Args[0])
 		return boolV(Eq(u.heap(env.cur, t), u.heap(env.old, t)))
@@ -501,8 +568,9 @@ func (u *Unit) evalSpecCall(env *SpecEnv, e *SExpr) Value {
 		x := arg(0)
 		k := u.kernelFor(env.kord)
 		if k == nil {
-			u.errorf("spec: K() used but no kernel loop is in scope")
-			return x
+			// no kernel loop was executed on this path (early return): an arbitrary function
+			s0, d0 := u.kernelTypes()
+			return Value{K: KNum, T: d0, Term: u.ctx.App("K0", u.elemSort(d0), Value{K: KNum, T: s0, Term: x.Term}.Term)}
 		}
 		return Value{K: KNum, T: k.DstElem, Term: u.ctx.App(k.Name, u.elemSort(k.DstElem), x.Term)}
 	case "inInt64":
@@ -530,6 +598,9 @@ func (u *Unit) evalSpecCall(env *SpecEnv, e *SExpr) Value {
 	u.errorf("spec: unknown function %s", e.Name)
 	return intV(IntLit(0))
 }
+
+var specTok = map[string]token.Token{"+": token.ADD, "-": token.SUB, "*": token.MUL, "/": token.QUO, "%": token.REM,
+	"<": token.LSS, "<=": token.LEQ, ">": token.GTR, ">=": token.GEQ}
 
 var specExt = map[string]func(u *Unit, env *SpecEnv, e *SExpr) Value{}
 
